@@ -15,3 +15,7 @@ reg("C09", "fault_enumeration", "DESIGN 5.2 C09",
     "The simulated clock is set to every tick within +-64 of every L0 boundary 1970..2200, to L1/L2 boundaries across 40 epochs, to PRNG instants and through backward/forward jumps on a shared cache (root-key cache and a cache holding a DC-obtained seed envelope); the key identifier parsed from the emitted blob by ref.cms must equal the exact-integer interval formula.",
     "trusted: ref.gkdi integer interval formula, ref.cms parser; clock enters the library only through dpapi_ng._client.time",
     T + ": clock-value enumeration through the time seam")
+reg("C19", "exploration", "DESIGN 5.2 C19",
+    "Histories of 2..64 protect calls (identical arguments at a frozen simulated instant; offline, online seed-key and public-key replies for DH/P256/P384; interleaved unprotects; concurrent async groups under a PRNG scheduler) run with a ledger entropy source behind os.urandom and AESGCM.generate_key; the reference opens every emitted blob and CEK, GCM nonce, key_info and ciphertext must be pairwise distinct within each history.",
+    "trusted: ref.cms/ref.gkdi to recover the CEK; the simulated entropy source is collision-free by construction, so the check decides 'each value is drawn fresh per call', not the quality of the OS RNG",
+    T + ": entropy seam with draw ledger, frozen clock, history oracle")
